@@ -240,7 +240,18 @@ def oracle(case, res):
                 out.append(("lon_range", "c2s%s longitude %r outside [-180, 180]" % (a, lon)))
             if a[0] == 0 and a[1] == 0 and not (lon == 0):
                 out.append(("pole", "c2s%s: pole/zero vector must map to longitude 0, got %r" % (a, lon)))
-            r = math.sqrt(sum(v * v for v in a))
+            mx = max(abs(v) for v in a)
+            r = mx * math.sqrt(sum((v / mx) * (v / mx) for v in a)) if mx > 0 else 0.0      # (no under/overflow for very short / long vectors)
+            if mx > 0 and case.get("special") == "scaled":
+                # direction is independent of length: compare with the answer for the same vector at unit scale
+                u_ = [v / mx for v in a]
+                lon_u = math.degrees(math.atan2(u_[1], u_[0]))
+                lat_u = math.degrees(math.atan2(u_[2], math.hypot(u_[0], u_[1])))
+                if case.get("wrap360", True):
+                    lon_u %= 360.0
+                dl = abs(lon - lon_u) % 360.0
+                if not (min(dl, 360.0 - dl) < 1e-9 and abs(lat - lat_u) < 1e-9):
+                    out.append(("scale", "c2s%s = %s, the same direction at unit length gives %s" % (a, [lon, lat], [lon_u, lat_u])))
             if r > 0 and "inverse" in res:
                 back = [_unf(v) for v in res["inverse"]]
                 if not all(_close(b, v / r, 1e-12, 1e-12) for b, v in zip(back, a)):
@@ -323,7 +334,11 @@ def gen(rng, tier):
     n = 60 if tier == "quick" else 3000
 
     def batch(k, lo=-3.0, hi=3.0):
-        return [[rng.uniform(lo, hi) for _ in range(k)] for _b in range(2)]
+        b = [[rng.uniform(lo, hi) for _ in range(k)] for _b in range(2)]
+        if rng.random() < 0.2:
+            # a companion with a NaN component: it answers NaN, the others answer as they do alone
+            b[rng.randrange(2)][rng.randrange(k)] = float("nan")
+        return b
     for _ in range(n):
         w = rng.random() < 0.5
         sp = rng.choice([None, None, "pole", "wrap", "turns"])
@@ -348,6 +363,11 @@ def gen(rng, tier):
         elif sp == "pole":
             v = [0.0, 0.0, rng.choice([3.0, -0.5])]
         yield {"fn": "cartesianToSpherical", "args": v, "wrap360": rng.random() < 0.5, "batch": batch(3), "special": sp}
+        # very short and very long vectors: the direction does not depend on the length
+        k2 = rng.choice([-1, 1]) * rng.randint(300, 680)
+        vs = [math.ldexp(rng.uniform(-5, 5), k2) for _i in range(3)]
+        yield {"fn": "cartesianToSpherical", "args": vs, "wrap360": rng.random() < 0.5, "batch": [[math.ldexp(rng.uniform(-3, 3), k2) for _ in range(3)] for _b in range(2)],
+               "special": "scaled"}
         yield {"fn": "toDirectionCosines", "args": [rng.uniform(-3, 3), rng.uniform(-3, 3), rng.choice([1.0, 1.0, rng.uniform(-2, 2)])], "batch": batch(3)}
         # near-grazing directions: |x|, |y| large against the unit third component
         steep = [rng.choice([-1, 1]) * 10 ** rng.uniform(2, 7), rng.choice([-1, 1]) * 10 ** rng.uniform(-2, 7), 1.0]
